@@ -143,8 +143,10 @@ func C12_cold() {
 	case 0:
 		c12Run(2, 1)
 	case 1:
+		sym.Preemptions(2)
 		c12Run(3, 1)
 	default:
+		sym.Preemptions(3)
 		c12Run(2, 2)
 	}
 }
